@@ -1,7 +1,8 @@
 /- model driver for C15: one operation per input line, one canonical line out -/
 import Batchie.Model.DriverLoop
 import Batchie.Model.UnrankIO
+import Batchie.Model.UnrankCallsite
 
 open Batchie
 
-def main : IO Unit := DriverLoop.run [UnrankIO.handle]
+def main : IO Unit := DriverLoop.run [UnrankIO.handle, UnrankCallsite.handle]
